@@ -29,6 +29,9 @@ type LockSpec struct {
 	RootShard, RootShards int
 	// ScaleCompaction: see Spec.ScaleCompaction (memory side).
 	ScaleCompaction bool
+	// Prefix: see Spec.Prefix (applied to both backends; must be divergence-free itself).
+	Prefix     []qmodel.Op
+	PrefixName string
 }
 
 type LockResult struct {
@@ -204,6 +207,22 @@ func idsOf(items []qmodel.Msg) string {
 	return "[" + strings.Join(s, ",") + "]"
 }
 
+// doBoth applies op to both backends. A churn (traffic on another route that leaves nothing behind) is only worth its
+// thousands of store calls on the memory side, whose size thresholds it is after; on SQLite it would be a no-op that
+// costs seconds, so it is answered as such there.
+func doBoth(p *pair, op qmodel.Op) (*qmodel.Obs, *qmodel.Obs) {
+	if op.Kind == "churn" {
+		// what is left of a churn besides nothing: its dequeues sweep expired leases (and its calls may prune); one empty
+		// dequeue on the churn's route does the same on the SQLite side
+		ob := p.sql.Do(qmodel.Op{Kind: "deq", Route: "/zz-churn", Target: "zz", Batch: 1, TTL: time.Minute})
+		if ob.Err == qmodel.OK && len(ob.Items) == 0 {
+			ob = &qmodel.Obs{Err: qmodel.OK}
+		}
+		return p.mem.Do(op), ob
+	}
+	return p.mem.Do(op), p.sql.Do(op)
+}
+
 // permitted classifies a divergence that the contract leaves open (order in which equally eligible messages
 // are chosen); "" = not permitted.
 func permitted(pre *qmodel.Model, op qmodel.Op, oa, ob *qmodel.Obs, sa, sb []qmodel.Msg) string {
@@ -344,6 +363,21 @@ func RunLockstep(spec LockSpec) *LockResult {
 	p0 := get(0)
 	p0.mem.Reset()
 	p0.sql.Reset()
+	for i, h := range spec.Prefix {
+		oa, ob := doBoth(p0, h)
+		why := obsDiff(h.Kind, oa, ob)
+		if why == "" {
+			why = snapDiff(p0.mem.Snapshot(), p0.sql.Snapshot())
+		}
+		if why == "" {
+			why = init.Apply(h, oa, p0.mem.Snapshot())
+		}
+		if why != "" {
+			br := &bfs.Result[qmodel.Op]{Exhaustive: true, Outcomes: map[string]int64{}}
+			br.Violations = append(br.Violations, bfs.Violation[qmodel.Op]{Hist: append([]qmodel.Op{}, spec.Prefix[:i]...), Op: h, Message: "(in the prefix history) " + why, Key: "diverge:prefix:" + h.Kind})
+			return &LockResult{Result: br, Permitted: perm, ConfigLabel: ConfigLabel(spec.Cfg)}
+		}
+	}
 	initKey := p0.mem.Key() + "##" + p0.sql.Key()
 
 	eng := &bfs.Engine[*qmodel.Model, qmodel.Op]{
@@ -355,12 +389,14 @@ func RunLockstep(spec LockSpec) *LockResult {
 			p := get(w)
 			p.mem.Reset()
 			p.sql.Reset()
+			for _, h := range spec.Prefix {
+				doBoth(p, h)
+			}
 			if cfg.DLQMaxDepth > 0 {
 				// memory breaks DLQ-depth ties by map iteration order: a replay may take the other (equally legal) branch
 				// and leave the two backends in different, both legal, states; such a replay is not extended
 				for _, h := range hist {
-					p.mem.Do(h)
-					p.sql.Do(h)
+					doBoth(p, h)
 					if snapDiff(p.mem.Snapshot(), p.sql.Snapshot()) != "" {
 						mu.Lock()
 						perm["dlq-depth-prune-tie-on-replay"]++
@@ -369,11 +405,11 @@ func RunLockstep(spec LockSpec) *LockResult {
 					}
 				}
 			} else {
-				p.mem.Replay(hist)
-				p.sql.Replay(hist)
+				for _, h := range hist {
+					doBoth(p, h)
+				}
 			}
-			oa := p.mem.Do(op)
-			ob := p.sql.Do(op)
+			oa, ob := doBoth(p, op)
 			sa := p.mem.Snapshot()
 			sb := p.sql.Snapshot()
 			d := obsDiff(op.Kind, oa, ob)
@@ -459,9 +495,11 @@ func ReplayLockstep(spec LockSpec, hist []qmodel.Op, op qmodel.Op) string {
 	sql := qsys.New("sqlite", cfg, filepath.Join(runner.Scratch(), "replay-lock"))
 	defer mem.Close()
 	defer sql.Close()
-	mem.Replay(hist)
-	sql.Replay(hist)
-	oa, ob := mem.Do(op), sql.Do(op)
+	pr := &pair{mem: mem, sql: sql}
+	for _, h := range hist {
+		doBoth(pr, h)
+	}
+	oa, ob := doBoth(pr, op)
 	if d := obsDiff(op.Kind, oa, ob); d != "" {
 		return d
 	}
@@ -473,6 +511,9 @@ func ReportLockstep(r *runner.Run, spec LockSpec, res *LockResult) {
 	r.Add("transitions", res.Transitions)
 	r.Add("traces_validated_against_impl", res.Transitions)
 	label := fmt.Sprintf("%s/%s", spec.Name, res.ConfigLabel)
+	if spec.PrefixName != "" {
+		label += "/from:" + spec.PrefixName
+	}
 	if spec.ScaleCompaction {
 		if ScaleApplied {
 			label += "/compaction-scaled"
@@ -503,6 +544,9 @@ func ReportLockstep(r *runner.Run, spec LockSpec, res *LockResult) {
 	}
 	for _, v := range res.Violations {
 		v := v
+		if len(spec.Prefix) > 0 && !strings.HasPrefix(v.Message, "(in the prefix history)") {
+			v.Hist = append(append([]qmodel.Op{}, spec.Prefix...), v.Hist...)
+		}
 		hist := make([]string, len(v.Hist))
 		for i, h := range v.Hist {
 			hist[i] = h.String()
